@@ -214,6 +214,15 @@ Proof.
   unfold er_R, Phi_ed, vnth. rewrite Ssi_eval, app_nth2 by (rewrite tab2_length; lia). rewrite tab2_length, Nat.sub_diag. reflexivity.
 Qed.
 
+(* the returned series: S = Ssi.sum() = N psihat(theta), R = R *)
+Lemma ed_outputs_agree R :
+  vsum (drop_last 1 (Phi_ed c N tau g phiS0 phiR0 theta R)) == N * peval c theta /\
+  vnth 0 (take_last 1 (Phi_ed c N tau g phiS0 phiR0 theta R)) == R.
+Proof.
+  unfold Phi_ed. rewrite drop_last_app, take_last_app by reflexivity. split; [|reflexivity].
+  rewrite Ssi_eval, vsum_tab2. apply S2_moment0.
+Qed.
+
 Lemma ebcm_to_ed R :
   ps theta == peval c theta -> psP theta == a theta -> psP 1 == a 1 ->
   ~ tau == 0 -> ~ N == 0 -> ~ x == 0 -> ~ a theta == 0 -> ~ a 1 == 0 ->
@@ -348,3 +357,10 @@ Proof.
     + apply fg_psihatPrime_poly; assumption.
     + apply fg_psihatPrime_poly; assumption.
 Qed.
+
+Lemma ed_outputs_both c N tau g phiS0 phiR0 theta R :
+  (vsum (drop_last 2 (Phi_ced c N tau g phiS0 phiR0 theta R)) == N * peval c theta /\
+   vnth 0 (take_last 2 (Phi_ced c N tau g phiS0 phiR0 theta R)) == R) /\
+  (vsum (drop_last 1 (Phi_ed c N tau g phiS0 phiR0 theta R)) == N * peval c theta /\
+   vnth 0 (take_last 1 (Phi_ed c N tau g phiS0 phiR0 theta R)) == R).
+Proof. split; [apply ced_outputs_agree|apply ed_outputs_agree]. Qed.
